@@ -238,7 +238,9 @@ func (c *c07) RunCase(r *fw.Rec, cs fw.Case) {
 		entry = "Script.RunContext"
 	}
 	r.Inc("entry:" + entry)
+	returnedCh := make(chan struct{})
 	go func() {
+		defer close(returnedCh)
 		done <- safely(func() error {
 			if entry == "Script.RunContext" {
 				cp2, e := s.RunContext(ctx)
@@ -252,10 +254,13 @@ func (c *c07) RunCase(r *fw.Rec, cs fw.Case) {
 	}()
 	var runErr error
 	returned := true
-	select {
-	case runErr = <-done:
-	case <-time.After(60 * time.Second):
+	switch fw.WaitOrHang(returnedCh, 60*time.Second) {
+	case "done":
+		runErr = <-done
+	case "hang":
 		returned = false
+	default:
+		fw.AbandonInconclusive("RunContext had not returned after 1200 s on a loaded machine")
 	}
 	elapsed := time.Since(start)
 	removeProbe()
@@ -270,7 +275,7 @@ func (c *c07) RunCase(r *fw.Rec, cs fw.Case) {
 	detail := map[string]interface{}{"script": sc.src, "family": sc.name, "entry_point": entry, "limit": limit, "cancel_at_instruction": k, "instructions_dispatched": pr.count,
 		"instructions_after_abort_flag": pr.afterAbort, "instructions_between_cancel_and_flag": pr.sinceCancel, "returned_error": fmt.Sprint(runErr), "wall_ms": elapsed.Milliseconds()}
 	if !returned {
-		r.Violate("no-return:"+sc.name, "RunContext did not return within 60 s of a cancellation ("+desc+")", detail)
+		r.Violate("no-return:"+sc.name, "RunContext did not return after a cancellation (60 s of CPU time spent, or blocked for 60 s; "+desc+")", detail)
 		// the VM goroutine may still spin: this worker is poisoned; give up the case list
 		panic("verif: RunContext hung; worker abandoned")
 	}
